@@ -30,6 +30,7 @@ pub struct RunCfg {
     pub summary_out: Option<String>,
     /// embed a previously written summary into the evidence
     pub include_summary: Option<String>,
+    pub include_miri: Option<String>,
 }
 
 #[derive(Clone, Debug)]
@@ -432,6 +433,13 @@ pub fn run_check(prop: &dyn Prop, cfg: &RunCfg) -> i32 {
             cov.push(("conformance", c.clone()));
         }
         cov.push(("receive_window_bytes", json::u(crate::model::WINDOW)));
+        if let Some(f) = &cfg.include_miri {
+            if let Ok(t) = std::fs::read_to_string(f) {
+                if let Ok(j) = json::parse(&t) {
+                    cov.push(("miri_subrun", j));
+                }
+            }
+        }
         if let Some(f) = &cfg.include_summary {
             if let Ok(t) = std::fs::read_to_string(f) {
                 if let Ok(j) = json::parse(&t) {
